@@ -178,14 +178,24 @@ func Run(r *mc.Run) {
 
 	// ---- A ----
 	epochs := []string{"", "0", "1", "00", "01", "7", "2147483647", "4294967296"}
+	epochs = append(epochs, gen.AuditIntStrings(0, 1<<62, 9)...) // alphabet audit: numbers a change introduced into the code
 	var ups []string
-	for _, s := range gen.AllStrings(gen.Chars("01aZ.+~-:"), 2) {
+	upAlpha := append(gen.Chars("01aZ.+~-:"), gen.AuditChars(gen.Versionish, 3)...)
+	for _, s := range gen.AllStrings(upAlpha, 2) {
 		ups = append(ups, "0"+s, "1"+s)
+	}
+	for _, t := range append(gen.AuditStrings(gen.Versionish, 8), gen.AuditIntStrings(0, 1<<62, 9)...) {
+		ups = append(ups, "1"+t, "1."+t+".2", "1"+t+"a")
 	}
 	revs := []string{}
 	for _, s := range gen.AllStrings(gen.Chars("0aZ.+~"), 2) {
 		if s != "" {
 			revs = append(revs, s)
+		}
+	}
+	for _, t := range append(gen.AuditStrings(gen.Versionish, 8), gen.AuditIntStrings(0, 1<<62, 9)...) {
+		if !strings.ContainsAny(t, "-:") {
+			revs = append(revs, t, "1"+t)
 		}
 	}
 	ws := []string{"", " ", "\t", "\n"}
@@ -283,7 +293,13 @@ func Run(r *mc.Run) {
 	}
 	add("non-digit-first", "-1", "0:-1", "1:-1", "-", "1:-", "-a")
 	// characters outside the alphabet at every position of upstream and revision
-	for _, c := range []string{"_", "!", "/", "é", "*", "=", ",", "(", "\x00", "\x7f", "٣", "１", "²", "Ａ"} {
+	outside := []string{"_", "!", "/", "é", "*", "=", ",", "(", "\x00", "\x7f", "٣", "１", "²", "Ａ"}
+	for _, c := range gen.AuditChars(nil, 6) {
+		if !gen.Versionish(c) && strings.TrimSpace(c) != "" {
+			outside = append(outside, c)
+		}
+	}
+	for _, c := range outside {
 		for _, v := range []string{"1.0", "1:1.0", "1.0-1"} {
 			for p := 1; p <= len(v); p++ {
 				if v[p-1] == ':' { // keep the epoch numeric: that is another class
@@ -322,7 +338,7 @@ func Run(r *mc.Run) {
 		})
 
 	// ---- C ----
-	sigma := append(gen.Chars("01aZ.+~-: "), "٣") // plus a non-ASCII decimal digit (unicode.IsDigit is true for it)
+	sigma := append(append(gen.Chars("01aZ.+~-: "), "٣"), gen.AuditChars(nil, 2)...) // plus a non-ASCII decimal digit (unicode.IsDigit is true for it)
 	L := r.Pick(5, 7)
 	// shard on the first two symbols
 	r.Scenario("C-accepted-roundtrip", map[string]interface{}{"alphabet": "01a.+~-: space and U+0663 (a non-ASCII decimal digit)", "max_len": L}, len(sigma)*len(sigma)+1, func(sh int, st *mc.Stats) bool {
